@@ -602,6 +602,6 @@ package gorm
 //@ # new instances). So it is only ever run on a chain in progress.
 //@ site scopes-run-on-a-chain-in-progress
 //@   match call gorm.(*DB).executeScopes
-//@   in gorm.(*Statement).BuildCondition gorm.(*processor).Execute gorm.(*DB).Migrator
-//@   min-sites 3
+//@   in gorm.(*Statement).BuildCondition
+//@   min-sites 1
 //@   assert not-on-a-reusable-handle: arg0.clone <= 0 [C06]
